@@ -123,6 +123,16 @@ class MOverride{tag}(MNamed{tag}):
     label: int = field(default=5, compare=False)
     name_kid: VBase | None = None
 
+# a plain (non-node) dataclass mixin that contributes child fields to a node class with an empty body
+@dataclass(frozen=True)
+class _PlainExtras{tag}:
+    extras: tuple[VBase, ...] = ()
+    note_kid: VBase | None = None
+
+@dataclass(frozen=True)
+class MRich{tag}(MNamed{tag}, _PlainExtras{tag}):
+    pass
+
 # quoted (string) annotations interleaved with evaluated ones, no postponed evaluation in this module
 @dataclass(frozen=True)
 class MQuoted{tag}(VBase):
@@ -154,6 +164,7 @@ MI_FIELDS = {
     "MFunc": [("body", "ct"), ("flag", "pnc"), ("name_kid", "co"), ("label", "p")],
     "MEmpty": [("name_kid", "co"), ("label", "p")],
     "MOverride": [("name_kid", "co"), ("label", "pnc")],
+    "MRich": [("extras", "ct"), ("note_kid", "co"), ("name_kid", "co"), ("label", "p")],
     "MQuoted": [("left", "co"), ("op", "co"), ("right", "ct"), ("extra", "ct"), ("q", "p"), ("p", "p")],
     "MAnnBase": [("aflag", "p"), ("ahead", "co"), ("aname", "p"), ("aitems", "ct"), ("atail", "co"), ("aweight", "p")],
 }
